@@ -4,9 +4,11 @@ package main
 //
 // Every case builds a REAL function.New(&function.Spec{…}) whose Type, Impl and
 // RefineResult callbacks are spies with a behaviour chosen from a menu, calls
-// Call / ReturnTypeForValues / ReturnType on it, and
+// Call / ReturnTypeForValues / ReturnType (and, in c10b.go, Proxy / Params /
+// VarParam / WithNewDescriptions) on it, and
 //   (a) adds a correspondence case against the Lean model (ops fn.call, fn.rtfv,
-//       fn.rt: outcome + trace of callback invocations with the arguments seen);
+//       fn.rt, fn.proxy, fn.params, fn.redesc: outcome + trace of callback
+//       invocations with the arguments seen);
 //   (b) evaluates the property's predicates directly on what the real spies saw
 //       and on the real result.
 
@@ -46,6 +48,8 @@ type c10Case struct {
 }
 
 var errC10Spy = errors.New("spy callback error")
+
+var c10ExtraTick int
 
 func (p c10Param) wire() string {
 	return fmt.Sprintf("(%s %s %s %s %s)", encTy(p.ty), encBool(p.n), encBool(p.u), encBool(p.d), encBool(p.m))
@@ -309,6 +313,14 @@ func c10Run(ctx *Ctx, c *c10Case, alsoRT bool) {
 	outcome := c10Outcome(panicked, err, okStr)
 	ctx.Add("fn.call", c10Answer(outcome, &o), sw[0], sw[1], sw[2], sw[3], c.implWire(), argsW)
 	ctx.Tag("outcome:" + strings.SplitN(outcome, " ", 2)[0])
+
+	// ---- Proxy / Params / VarParam / WithNewDescriptions (c10b.go), on every 5th of the cases below
+	if alsoRT {
+		c10ExtraTick++
+		if c10ExtraTick%5 == 0 || c.how == "regression" {
+			c10Extras(ctx, c, sw, argsW, key, c10Answer(outcome, &o))
+		}
+	}
 
 	// ---- ReturnTypeForValues / ReturnType (correspondence + no escaping panic)
 	if alsoRT {
@@ -811,6 +823,7 @@ func runC10(ctx *Ctx) {
 		}
 	}
 	scope = append(scope, fmt.Sprintf("callback product: 5 Type behaviours x 8 Impl behaviours x 3 RefineResult behaviours x (no parameter; one parameter: 16 flag combinations x 7 classes; sampled positional+variadic) = %d cases", cb))
+	scope = append(scope, "Proxy / Params / VarParam / WithNewDescriptions (every description count 0..len(params)+2) on every 5th of the cases that also run ReturnTypeForValues / ReturnType")
 	ctx.res.Exhaustive = true
 	ctx.res.Scope = strings.Join(scope, "; ")
 
